@@ -438,3 +438,460 @@ Example interleave_example :
   /\ observed_is_interleaving [[10; 11]; [20; 21]] [(1%nat, 20); (0%nat, 10); (1%nat, 21); (0%nat, 11)] = true
   /\ observed_is_interleaving [[10; 11]; [20; 21]] [(1%nat, 21); (0%nat, 10); (1%nat, 20); (0%nat, 11)] = false.
 Proof. repeat split; vm_compute; reflexivity. Qed.
+
+(* ------------------------------------------------------------------------------------ *)
+(* 5. process-wide state carried from one run to the next                                 *)
+(* ------------------------------------------------------------------------------------ *)
+Lemma flat_map_ext_in : forall (A B : Type) (f g : A -> list B) (l : list A),
+  (forall x, In x l -> f x = g x) -> flat_map f l = flat_map g l.
+Proof.
+  intros A B f g l H. induction l as [|x l IH]; [reflexivity|].
+  cbn [flat_map]. rewrite (H x (or_introl eq_refl)). rewrite IH; [reflexivity|].
+  intros y Hy. apply H. right. exact Hy.
+Qed.
+
+Lemma ids_distinct_from_spec : forall l seen,
+  ids_distinct_from seen l = true -> NoDup l /\ forall i, In i l -> ~ In i seen.
+Proof.
+  induction l as [|i l IH]; intros seen H.
+  - split; [constructor|]. intros i [].
+  - cbn [ids_distinct_from] in H. apply andb_true_iff in H. destruct H as [Hi Hl].
+    apply negb_true_iff in Hi. destruct (IH (i :: seen) Hl) as [Hnd Hns]. split.
+    + constructor; [|exact Hnd]. intro Hin. apply (Hns i Hin). left. reflexivity.
+    + intros j [<- | Hj].
+      * intro Hs. assert (Hex : existsb (N.eqb i) seen = true).
+        { apply existsb_exists. exists i. split; [exact Hs | apply N.eqb_refl]. }
+        rewrite Hex in Hi. discriminate.
+      * intro Hs. apply (Hns j Hj). right. exact Hs.
+Qed.
+
+Lemma nodup_map_inj : forall (cs : list csite), NoDup (map c_id cs) ->
+  forall c c', In c cs -> In c' cs -> c_id c = c_id c' -> c = c'.
+Proof.
+  induction cs as [|x cs IH]; intros Hnd c c' Hc Hc' Heq; [inversion Hc|].
+  cbn [map] in Hnd. inversion Hnd as [|? ? Hnot Hnd']; subst.
+  destruct Hc as [<- | Hc]; destruct Hc' as [<- | Hc'].
+  - reflexivity.
+  - exfalso. apply Hnot. rewrite Heq. apply in_map. exact Hc'.
+  - exfalso. apply Hnot. rewrite <- Heq. apply in_map. exact Hc.
+  - apply IH; assumption.
+Qed.
+
+Lemma ids_distinct_inj : forall cs, ids_distinct cs = true ->
+  forall c c', In c cs -> In c' cs -> c_id c = c_id c' -> c = c'.
+Proof.
+  intros cs H. apply nodup_map_inj. unfold ids_distinct in H. destruct (ids_distinct_from_spec _ _ H) as [Hnd _]. exact Hnd.
+Qed.
+
+Lemma upd_same : forall st c k v, upd st c k v c k = Some v.
+Proof. intros. unfold upd. rewrite !N.eqb_refl. reflexivity. Qed.
+
+Lemma upd_other_id : forall st c k v c' k', c <> c' -> upd st c k v c' k' = st c' k'.
+Proof. intros st c k v c' k' H. unfold upd. apply N.eqb_neq in H. rewrite H. reflexivity. Qed.
+
+Lemma upd_other_key : forall st c k v c' k', k <> k' -> upd st c k v c' k' = st c' k'.
+Proof. intros st c k v c' k' H. unfold upd. apply N.eqb_neq in H. rewrite H. rewrite andb_false_r. reflexivity. Qed.
+
+Section CarriedProofs.
+  Variable key : N -> rin -> N.
+  Variable pure : N -> N -> N.
+  Variable wr : N -> rin -> option N.
+
+  (* what a reachable process state looks like at the safe sites *)
+  Definition inv (cs : list csite) (st : store) : Prop :=
+    forall c, In c cs ->
+      match c_class c with
+      | Memo => forall k v, st (c_id c) k = Some v -> v = pure (c_id c) k
+      | Registry => forall k, st (c_id c) k = None
+      | RunWritten => True
+      end.
+
+  Lemma inv_empty : forall cs, inv cs empty_store.
+  Proof. intros cs c _. destruct (c_class c); [intros k v H; discriminate H | reflexivity | exact I]. Qed.
+
+  Lemma step_site_inv : forall cs r st c', ids_distinct cs = true -> In c' cs -> inv cs st -> inv cs (step_site key pure wr r st c').
+  Proof.
+    intros cs r st c' Hd Hc' Hinv c Hc. specialize (Hinv c Hc) as Hic.
+    unfold step_site. destruct (c_class c') eqn:Hcl'.
+    - (* Memo *)
+      destruct (st (c_id c') (key (c_id c') r)) eqn:Hpres; [exact Hic|].
+      destruct (N.eq_dec (c_id c') (c_id c)) as [Heq|Hne].
+      + assert (c' = c) by (apply (ids_distinct_inj cs Hd); assumption). subst c'. rewrite Hcl' in *.
+        intros k v Hk. destruct (N.eq_dec (key (c_id c) r) k) as [<-|Hk'].
+        * rewrite upd_same in Hk. injection Hk as <-. reflexivity.
+        * rewrite upd_other_key in Hk by exact Hk'. apply Hic. exact Hk.
+      + destruct (c_class c); [| |exact I].
+        * intros k v Hk. rewrite upd_other_id in Hk by exact Hne. apply Hic. exact Hk.
+        * intros k. rewrite upd_other_id by exact Hne. apply Hic.
+    - (* Registry *) exact Hic.
+    - (* RunWritten *)
+      destruct (wr (c_id c') r) as [v'|]; [|exact Hic].
+      destruct (N.eq_dec (c_id c') (c_id c)) as [Heq|Hne].
+      + assert (c' = c) by (apply (ids_distinct_inj cs Hd); assumption). subst c'. rewrite Hcl'. exact I.
+      + destruct (c_class c); [| |exact I].
+        * intros k v Hk. rewrite upd_other_id in Hk by exact Hne. apply Hic. exact Hk.
+        * intros k. rewrite upd_other_id by exact Hne. apply Hic.
+  Qed.
+
+  Lemma fold_step_inv : forall cs r l st, ids_distinct cs = true -> incl l cs -> inv cs st -> inv cs (fold_left (step_site key pure wr r) l st).
+  Proof.
+    intros cs r l. induction l as [|c' l IH]; intros st Hd Hl Hinv; [exact Hinv|].
+    cbn [fold_left]. apply IH; [exact Hd | intros y Hy; apply Hl; right; exact Hy |].
+    apply step_site_inv; [exact Hd | apply Hl; left; reflexivity | exact Hinv].
+  Qed.
+
+  Lemma step_run_inv : forall cs r st, ids_distinct cs = true -> inv cs st -> inv cs (step_run key pure wr cs st r).
+  Proof. intros cs r st Hd Hinv. unfold step_run. apply fold_step_inv; [exact Hd | apply incl_refl | exact Hinv]. Qed.
+
+  Lemma after_inv : forall cs hist, ids_distinct cs = true -> inv cs (after key pure wr cs hist).
+  Proof.
+    intros cs hist Hd. unfold after. generalize (inv_empty cs). generalize empty_store.
+    induction hist as [|r hist IH]; intros st Hinv; [exact Hinv|].
+    cbn [fold_left]. apply IH. apply step_run_inv; assumption.
+  Qed.
+
+  (* an entry of a Memo site, once there, survives the steps of every site *)
+  Lemma step_site_keeps_memo_entry : forall cs r st c c' k v,
+    ids_distinct cs = true -> In c cs -> In c' cs -> c_class c = Memo ->
+    st (c_id c) k = Some v -> step_site key pure wr r st c' (c_id c) k = Some v.
+  Proof.
+    intros cs r st c c' k v Hd Hc Hc' Hm Hk. unfold step_site.
+    destruct (N.eq_dec (c_id c') (c_id c)) as [Heq|Hne].
+    - assert (c' = c) by (apply (ids_distinct_inj cs Hd); assumption). subst c'. rewrite Hm.
+      destruct (st (c_id c) (key (c_id c) r)) eqn:Hpres; [exact Hk|].
+      destruct (N.eq_dec (key (c_id c) r) k) as [<-|Hk']; [rewrite Hk in Hpres; discriminate|].
+      rewrite upd_other_key by exact Hk'. exact Hk.
+    - destruct (c_class c').
+      + destruct (st (c_id c') (key (c_id c') r)); [exact Hk|]. rewrite upd_other_id by exact Hne. exact Hk.
+      + exact Hk.
+      + destruct (wr (c_id c') r); [|exact Hk]. rewrite upd_other_id by exact Hne. exact Hk.
+  Qed.
+
+  Lemma step_site_writes_memo : forall r st c, c_class c = Memo ->
+    exists v, step_site key pure wr r st c (c_id c) (key (c_id c) r) = Some v.
+  Proof.
+    intros r st c Hm. unfold step_site. rewrite Hm.
+    destruct (st (c_id c) (key (c_id c) r)) eqn:Hpres; [exists n; exact Hpres|].
+    eexists. apply upd_same.
+  Qed.
+
+  Lemma fold_memo_present : forall cs r l st c,
+    ids_distinct cs = true -> incl l cs -> In c cs -> c_class c = Memo ->
+    (In c l \/ exists v, st (c_id c) (key (c_id c) r) = Some v) ->
+    exists v, fold_left (step_site key pure wr r) l st (c_id c) (key (c_id c) r) = Some v.
+  Proof.
+    intros cs r l. induction l as [|a l IH]; intros st c Hd Hl Hc Hm H.
+    - destruct H as [[] | H]. exact H.
+    - cbn [fold_left]. apply IH; [exact Hd | intros y Hy; apply Hl; right; exact Hy | exact Hc | exact Hm |].
+      destruct H as [[-> | Hin] | [v Hv]].
+      + right. apply step_site_writes_memo. exact Hm.
+      + left. exact Hin.
+      + right. exists v. apply (step_site_keeps_memo_entry cs); try assumption. apply Hl. left. reflexivity.
+  Qed.
+
+  (* an entry of a Memo site survives every later run unchanged; nothing ever appears at a Registry site: this is what the
+     snapshots taken around real runs are checked for (entries_not_overwritten / entries_same) *)
+  Lemma fold_keeps_memo_entry : forall cs r l st c k v,
+    ids_distinct cs = true -> incl l cs -> In c cs -> c_class c = Memo ->
+    st (c_id c) k = Some v -> fold_left (step_site key pure wr r) l st (c_id c) k = Some v.
+  Proof.
+    intros cs r l. induction l as [|a l IH]; intros st c k v Hd Hl Hc Hm Hk; [exact Hk|].
+    cbn [fold_left]. apply (IH _ c k v Hd); [intros y Hy; apply Hl; right; exact Hy | exact Hc | exact Hm |].
+    apply (step_site_keeps_memo_entry cs); try assumption. apply Hl. left. reflexivity.
+  Qed.
+
+  Lemma safe_entries_survive : forall cs hist r c k v,
+    ids_distinct cs = true -> In c cs ->
+    (c_class c = Memo -> after key pure wr cs hist (c_id c) k = Some v ->
+       step_run key pure wr cs (after key pure wr cs hist) r (c_id c) k = Some v)
+    /\ (c_class c = Registry -> step_run key pure wr cs (after key pure wr cs hist) r (c_id c) k = None).
+  Proof.
+    intros cs hist r c k v Hd Hc. split.
+    - intros Hm Hk. unfold step_run. apply (fold_keeps_memo_entry cs); try assumption. apply incl_refl.
+    - intros Hreg. pose proof (step_run_inv cs r _ Hd (after_inv cs hist Hd) c Hc) as H. rewrite Hreg in H. apply H.
+  Qed.
+
+  (* what a run reads from a safe site does not depend on the state it started in *)
+  Definition ideal_read (r : rin) (c : csite) : option N :=
+    match c_class c with Memo => Some (pure (c_id c) (key (c_id c) r)) | _ => None end.
+
+  Lemma read_ideal : forall cs r st c,
+    ids_distinct cs = true -> inv cs st -> In c cs -> c_safe c = true ->
+    read_site key r (step_run key pure wr cs st r) c = ideal_read r c.
+  Proof.
+    intros cs r st c Hd Hinv Hc Hs. unfold read_site, ideal_read.
+    pose proof (step_run_inv cs r st Hd Hinv c Hc) as Hafter.
+    unfold c_safe in Hs. destruct (c_class c) eqn:Hcl; [| |discriminate].
+    - destruct (fold_memo_present cs r cs st c Hd (incl_refl _) Hc Hcl (or_introl Hc)) as [v Hv].
+      unfold step_run in *. rewrite Hv. f_equal. apply Hafter. exact Hv.
+    - apply Hafter.
+  Qed.
+
+  Lemma reads_ideal : forall cs r st x,
+    ids_distinct cs = true -> inv cs st -> carried_safe cs x = true ->
+    reads key cs r (step_run key pure wr cs st r) x = map (ideal_read r) (filter (fun c => c_reads c x) cs).
+  Proof.
+    intros cs r st x Hd Hinv Hs. unfold reads. apply map_ext_in. intros c Hin.
+    apply filter_In in Hin. destruct Hin as [Hin Hr].
+    apply read_ideal; try assumption.
+    unfold carried_safe in Hs. rewrite forallb_forall in Hs. specialize (Hs c Hin). rewrite Hr in Hs. exact Hs.
+  Qed.
+
+  Variable genp : N -> N -> list (option N) -> N -> N -> N -> N -> N.
+
+  (* the traffic of a run in terms of its own inputs only *)
+  Definition ideal_traffic (p : plan) (cs : list csite) (r : rin) (a : ambient) : list request :=
+    flat_map (fun w => run_work (genp (r_schema r) (r_cfg r) (map (ideal_read r) (filter (fun c => c_reads c (w_ctx w)) cs)))
+                                (fst p) (r_seed r) a w) (snd p).
+
+  Lemma traffic_is_ideal : forall p cs hist r a,
+    ids_distinct cs = true -> works_carried_safe cs (snd p) = true ->
+    traffic_after key pure wr genp p cs hist r a = ideal_traffic p cs r a.
+  Proof.
+    intros p cs hist r a Hd Hs. unfold traffic_after, run_in, ideal_traffic.
+    apply flat_map_ext_in. intros w Hw.
+    unfold works_carried_safe in Hs. rewrite forallb_forall in Hs.
+    rewrite (reads_ideal cs r (after key pure wr cs hist) (w_ctx w) Hd (after_inv cs hist Hd) (Hs w Hw)). reflexivity.
+  Qed.
+
+  Lemma history_independent : forall p cs hist hist' r a,
+    ids_distinct cs = true -> works_carried_safe cs (snd p) = true ->
+    traffic_after key pure wr genp p cs hist r a = traffic_after key pure wr genp p cs hist' r a.
+  Proof. intros. rewrite !traffic_is_ideal by assumption. reflexivity. Qed.
+
+  (* together with the seeds: the traffic is a function of (seed, schema, configuration) *)
+  Lemma traffic_function_of_inputs : forall p cs hist hist' r a a',
+    ids_distinct cs = true -> works_carried_safe cs (snd p) = true -> all_seeded p = true ->
+    traffic_after key pure wr genp p cs hist r a = traffic_after key pure wr genp p cs hist' r a'.
+  Proof.
+    intros p cs hist hist' r a a' Hd Hs Hseed. rewrite !traffic_is_ideal by assumption.
+    unfold ideal_traffic. apply flat_map_ext_in. intros w Hw. apply run_work_seeded.
+    unfold all_seeded in Hseed. rewrite forallb_forall in Hseed. apply Hseed. exact Hw.
+  Qed.
+End CarriedProofs.
+
+(* an unsafe site that is read makes the same run differ between a used and a fresh process *)
+Fixpoint reads_eqb (l l' : list (option N)) : bool :=
+  match l, l' with
+  | [], [] => true
+  | Some v :: t, Some v' :: t' => N.eqb v v' && reads_eqb t t'
+  | None :: t, None :: t' => reads_eqb t t'
+  | _, _ => false
+  end.
+
+Lemma reads_eqb_refl : forall l, reads_eqb l l = true.
+Proof. induction l as [|[v|] l IH]; cbn [reads_eqb]; [reflexivity | rewrite N.eqb_refl; exact IH | exact IH]. Qed.
+
+Lemma reads_eqb_eq : forall l l', reads_eqb l l' = true -> l = l'.
+Proof.
+  induction l as [|[v|] l IH]; intros [|[v'|] l'] H; cbn [reads_eqb] in H; try discriminate H; try reflexivity.
+  - apply andb_true_iff in H. destruct H as [Hv Ht]. apply N.eqb_eq in Hv. subst. f_equal. apply IH. exact Ht.
+  - f_equal. apply IH. exact H.
+Qed.
+
+Definition leak_key : N -> rin -> N := fun _ _ => 0.
+Definition leak_pure : N -> N -> N := fun _ _ => 0.
+(* a run with a non-default configuration writes it; the default configuration writes nothing *)
+Definition leak_wr : N -> rin -> option N := fun _ r => if N.eqb (r_cfg r) 0 then None else Some (r_cfg r).
+Definition leak_genp (expected : list (option N)) : N -> N -> list (option N) -> N -> N -> N -> N -> N :=
+  fun _ _ rd _ _ _ _ => if reads_eqb rd expected then 0 else 1.
+Definition run_default := mkRin 0 0 0.
+Definition run_other := mkRin 0 0 1.
+Definition unit_plan (x : ctx) : plan := ([mkSite 1 (Seeded 0 0) [x_phase x] false false true], [mkWork 0 x 0 1]).
+
+Lemma fold_keeps_slot : forall r l st i k v,
+  (forall c, In c l -> c_id c <> i \/ (c_class c = RunWritten /\ leak_wr (c_id c) r = None)) ->
+  st i k = v -> fold_left (step_site leak_key leak_pure leak_wr r) l st i k = v.
+Proof.
+  intros r l. induction l as [|c l IH]; intros st i k v H Hst; [exact Hst|].
+  cbn [fold_left]. apply IH; [intros c' Hc'; apply H; right; exact Hc'|].
+  destruct (H c (or_introl eq_refl)) as [Hne | [Hcl Hw]].
+  - unfold step_site. destruct (c_class c).
+    + destruct (st (c_id c) (leak_key (c_id c) r)); [exact Hst|]. rewrite upd_other_id by exact Hne. exact Hst.
+    + exact Hst.
+    + destruct (leak_wr (c_id c) r); [|exact Hst]. rewrite upd_other_id by exact Hne. exact Hst.
+  - unfold step_site. rewrite Hcl, Hw. exact Hst.
+Qed.
+
+Lemma others_differ : forall cs c l1 l2, ids_distinct cs = true -> cs = l1 ++ c :: l2 ->
+  forall c', In c' (l1 ++ l2) -> c_id c' <> c_id c.
+Proof.
+  intros cs c l1 l2 Hd Hcs c' Hin Heq.
+  assert (Hnd : NoDup (map c_id cs)).
+  { unfold ids_distinct in Hd. destruct (ids_distinct_from_spec _ _ Hd) as [Hnd _]. exact Hnd. }
+  rewrite Hcs, map_app in Hnd. cbn [map] in Hnd. apply NoDup_remove_2 in Hnd. apply Hnd.
+  rewrite <- Heq. rewrite <- map_app. apply in_map. exact Hin.
+Qed.
+
+Lemma carried_unsafe_diverges : forall cs x,
+  ids_distinct cs = true -> carried_unsafe_active cs x = true ->
+  exists expected,
+    traffic_after leak_key leak_pure leak_wr (leak_genp expected) (unit_plan x) cs [run_other] run_default wit_a0
+    <> traffic_after leak_key leak_pure leak_wr (leak_genp expected) (unit_plan x) cs [] run_default wit_a0.
+Proof.
+  intros cs x Hd Hu. unfold carried_unsafe_active in Hu. apply existsb_exists in Hu. destruct Hu as [c [Hc Hcu]].
+  apply andb_true_iff in Hcu. destruct Hcu as [Hr Hns]. apply negb_true_iff in Hns.
+  assert (Hcl : c_class c = RunWritten) by (unfold c_safe in Hns; destruct (c_class c); try discriminate; reflexivity).
+  destruct (in_split c cs Hc) as [l1 [l2 Hcs]].
+  pose proof (others_differ cs c l1 l2 Hd Hcs) as Hoth.
+  (* the default run leaves the slot of c alone *)
+  assert (Hkeep : forall st v, st (c_id c) 0 = v -> step_run leak_key leak_pure leak_wr cs st run_default (c_id c) 0 = v).
+  { intros st v Hst. unfold step_run. apply fold_keeps_slot; [|exact Hst].
+    intros c' Hc'. rewrite Hcs in Hc'. apply in_app_or in Hc'. destruct Hc' as [Hc' | [<- | Hc']].
+    - left. apply Hoth. apply in_or_app. left. exact Hc'.
+    - right. split; [exact Hcl | reflexivity].
+    - left. apply Hoth. apply in_or_app. right. exact Hc'. }
+  (* the other run writes its configuration there *)
+  assert (Hwrite : step_run leak_key leak_pure leak_wr cs empty_store run_other (c_id c) 0 = Some 1).
+  { unfold step_run. rewrite Hcs, fold_left_app. cbn [fold_left].
+    apply fold_keeps_slot.
+    - intros c' Hc'. left. apply Hoth. apply in_or_app. right. exact Hc'.
+    - unfold step_site at 1. rewrite Hcl. cbn. unfold leak_key. apply upd_same. }
+  set (fresh := reads leak_key cs run_default (step_run leak_key leak_pure leak_wr cs empty_store run_default) x).
+  exists fresh.
+  unfold traffic_after, run_in, unit_plan. cbn [fst snd flat_map after fold_left w_ctx r_schema r_cfg r_seed].
+  rewrite !app_nil_r. unfold run_work. cbn [w_count nseq map]. unfold request_of. cbn [w_ctx].
+  assert (Hcontr : contributes (mkSite 1 (Seeded 0 0) [x_phase x] false false true) x = true).
+  { unfold contributes, active, in_phases. cbn. destruct (x_phase x); reflexivity. }
+  cbn [filter]. rewrite Hcontr. cbn [map]. unfold draw, leak_genp.
+  fold fresh. rewrite reads_eqb_refl.
+  destruct (reads_eqb _ fresh) eqn:Heq; [|discriminate].
+  exfalso. apply reads_eqb_eq in Heq. revert Heq. unfold fresh, reads.
+  apply (map_neq _ _ _ _ _ c).
+  - apply filter_In. split; assumption.
+  - unfold read_site. change (leak_key (c_id c) run_default) with 0.
+    rewrite (Hkeep _ (Some 1) Hwrite). rewrite (Hkeep empty_store None eq_refl). discriminate.
+Qed.
+
+Lemma carried_safe_unsafe : forall cs x, carried_safe cs x = negb (carried_unsafe_active cs x).
+Proof.
+  intros cs x. unfold carried_safe, carried_unsafe_active. induction cs as [|c cs IH]; [reflexivity|].
+  cbn [forallb existsb]. rewrite IH. destruct (c_reads c x), (c_safe c); reflexivity.
+Qed.
+
+Lemma carried_dichotomy : forall cs x, ids_distinct cs = true ->
+  (carried_safe cs x = true /\
+   forall key pure wr genp sites ws hist hist' r a, works_in (fun y => carried_safe cs y) ws = true ->
+     traffic_after key pure wr genp (sites, ws) cs hist r a = traffic_after key pure wr genp (sites, ws) cs hist' r a)
+  \/ (carried_unsafe_active cs x = true /\
+      exists key pure wr genp p hist r a,
+        traffic_after key pure wr genp p cs hist r a <> traffic_after key pure wr genp p cs [] r a).
+Proof.
+  intros cs x Hd. destruct (carried_unsafe_active cs x) eqn:Hu.
+  - right. split; [reflexivity|]. destruct (carried_unsafe_diverges cs x Hd Hu) as [expected H].
+    exists leak_key, leak_pure, leak_wr, (leak_genp expected), (unit_plan x), [run_other], run_default, wit_a0. exact H.
+  - left. split; [rewrite carried_safe_unsafe, Hu; reflexivity|].
+    intros key pure wr genp sites ws hist hist' r a Hw. apply history_independent; [exact Hd|exact Hw].
+Qed.
+
+(* ---- the carried sites of the source today (Gen_C13.gen_carried) ---- *)
+Lemma gen_carried_ids_distinct : ids_distinct gen_carried = true.
+Proof. vm_compute. reflexivity. Qed.
+
+(* the only carried site whose content is not determined by its key is the memo of the unseeded coverage draw (cached_draw, F2);
+   contexts in the order of all_ctxs.  A mutation of process-wide state that the translator cannot classify as Memo / Registry
+   enters gen_carried as RunWritten in every phase and breaks this lemma. *)
+Lemma current_unsafe_table :
+  unsafe_table gen_carried =
+  [ []; []; []; [];
+    [73]; [73]; [73]; [73];
+    []; []; []; [];
+    []; []; []; [] ].
+Proof. vm_compute. reflexivity. Qed.
+
+Definition carried_region_today (x : ctx) : bool := match x_phase x with Coverage => false | _ => true end.
+
+Lemma carried_region_today_ok : forall x, carried_region_today x = true -> carried_safe gen_carried x = true.
+Proof. intros [p n m] H. destruct p, n, m; try discriminate H; vm_compute; reflexivity. Qed.
+
+Lemma works_region_carried : forall (region : ctx -> bool) cs ws,
+  (forall x, region x = true -> carried_safe cs x = true) -> works_in region ws = true -> works_carried_safe cs ws = true.
+Proof.
+  intros region cs ws Hr Hw. unfold works_in, works_carried_safe in *. rewrite forallb_forall in *.
+  intros w Hin. apply Hr. apply Hw. exact Hin.
+Qed.
+
+Lemma current_history_independent : forall key pure wr genp ws hist hist' r a,
+  works_in carried_region_today ws = true ->
+  traffic_after key pure wr genp (gen_sites, ws) gen_carried hist r a = traffic_after key pure wr genp (gen_sites, ws) gen_carried hist' r a.
+Proof.
+  intros. apply history_independent; [exact gen_carried_ids_distinct|].
+  cbn [snd]. apply (works_region_carried carried_region_today); [exact carried_region_today_ok | assumption].
+Qed.
+
+Lemma seeded_region_in_carried_region : forall x, seeded_region_today x = true -> carried_region_today x = true.
+Proof. intros [p n m] H. destruct p; try discriminate H; reflexivity. Qed.
+
+Lemma current_traffic_function_of_inputs : forall key pure wr genp ws hist hist' r a a',
+  works_in seeded_region_today ws = true ->
+  traffic_after key pure wr genp (gen_sites, ws) gen_carried hist r a = traffic_after key pure wr genp (gen_sites, ws) gen_carried hist' r a'.
+Proof.
+  intros key pure wr genp ws hist hist' r a a' Hw. apply traffic_function_of_inputs.
+  - exact gen_carried_ids_distinct.
+  - cbn [snd]. apply (works_region_carried seeded_region_today); [|exact Hw].
+    intros x Hx. apply carried_region_today_ok. apply seeded_region_in_carried_region. exact Hx.
+  - unfold all_seeded. cbn [fst snd]. unfold works_in in Hw. rewrite forallb_forall in *.
+    intros w Hin. apply seeded_region_today_ok. apply Hw. exact Hin.
+Qed.
+
+Lemma coverage_memo_refuted :
+  carried_unsafe_active gen_carried cov_pos = true /\ carried_unsafe_active gen_carried cov_neg = true
+  /\ exists key pure wr genp p hist r a,
+       traffic_after key pure wr genp p gen_carried hist r a <> traffic_after key pure wr genp p gen_carried [] r a.
+Proof.
+  split; [vm_compute; reflexivity|]. split; [vm_compute; reflexivity|].
+  destruct (carried_unsafe_diverges gen_carried cov_pos gen_carried_ids_distinct) as [expected H]; [vm_compute; reflexivity|].
+  exists leak_key, leak_pure, leak_wr, (leak_genp expected), (unit_plan cov_pos), [run_other], run_default, wit_a0. exact H.
+Qed.
+
+(* Sentinel: the plan of a source in which a run writes a configuration-dependent entry into a process-wide object that every
+   later run reads (seeded regression C13_d: _build_custom_formats assigning HEADER_FORMAT into the dict returned by the
+   lru_cache-d get_default_format_strategies). *)
+Definition formats_leak_site : csite := mkCSite 90 RunWritten [Examples; Coverage; Fuzzing; Stateful] true.
+Definition sentinel_carried_with_formats_leak : list csite := gen_carried ++ [formats_leak_site].
+
+Lemma sentinel_carried_ids_distinct : ids_distinct sentinel_carried_with_formats_leak = true.
+Proof. vm_compute. reflexivity. Qed.
+
+Lemma formats_leak_sentinel_refuted :
+  carried_unsafe_active sentinel_carried_with_formats_leak fuzz_pos = true
+  /\ carried_unsafe_active sentinel_carried_with_formats_leak st_pos = true
+  /\ exists key pure wr genp hist r a,
+       traffic_after key pure wr genp (unit_plan fuzz_pos) sentinel_carried_with_formats_leak hist r a
+       <> traffic_after key pure wr genp (unit_plan fuzz_pos) sentinel_carried_with_formats_leak [] r a.
+Proof.
+  split; [vm_compute; reflexivity|]. split; [vm_compute; reflexivity|].
+  destruct (carried_unsafe_diverges sentinel_carried_with_formats_leak fuzz_pos sentinel_carried_ids_distinct) as [expected H];
+    [vm_compute; reflexivity|].
+  exists leak_key, leak_pure, leak_wr, (leak_genp expected), [run_other], run_default, wit_a0. exact H.
+Qed.
+
+Lemma formats_leak_sentinel_differs :
+  unsafe_table sentinel_carried_with_formats_leak <> unsafe_table gen_carried
+  /\ carried_safe sentinel_carried_with_formats_leak fuzz_pos = false /\ carried_safe gen_carried fuzz_pos = true.
+Proof. split; [vm_compute; discriminate|]. split; vm_compute; reflexivity. Qed.
+
+(* non-vacuity: two Memo sites, a Registry and (outside the fuzzing phase) a RunWritten one; three earlier runs with other schemas
+   and configurations fill the process (4 entries) and the run sends what it sends in a fresh process *)
+Definition ex_carried : list csite :=
+  [mkCSite 40 Memo [Fuzzing; Stateful] true; mkCSite 41 Registry [Fuzzing] true; mkCSite 42 Memo [Fuzzing] true; mkCSite 43 RunWritten [Coverage] true].
+Definition ex_key : N -> rin -> N := fun c r => c + r_schema r.
+Definition ex_pure : N -> N -> N := fun c k => 2 * k + c.
+Definition ex_genp : N -> N -> list (option N) -> N -> N -> N -> N -> N :=
+  fun sch cfg rd sid e op i => sch + cfg + e + i + fold_right (fun o acc => match o with Some v => v + acc | None => acc end) 0 rd.
+
+Example carried_example :
+  works_carried_safe ex_carried [mkWork 0 fuzz_pos 0 2] = true /\ ids_distinct ex_carried = true
+  /\ length (store_entries (after ex_key ex_pure leak_wr ex_carried [mkRin 1 5 1; mkRin 2 6 0; mkRin 3 5 2])
+                           [(40, 45); (40, 46); (42, 47); (42, 48); (43, 48); (43, 49)]) = 5%nat
+  /\ traffic_after ex_key ex_pure leak_wr ex_genp (gen_sites, [mkWork 0 fuzz_pos 0 2]) ex_carried [mkRin 1 5 1; mkRin 2 6 0; mkRin 3 5 2] (mkRin 9 5 0) wit_a0
+     = [[280]; [281]]
+  /\ traffic_after ex_key ex_pure leak_wr ex_genp (gen_sites, [mkWork 0 fuzz_pos 0 2]) ex_carried [] (mkRin 9 5 0) wit_a0 = [[280]; [281]].
+Proof. repeat split; vm_compute; reflexivity. Qed.
+
+(* the snapshot comparison used by the correspondence is what step_site guarantees for Memo and Registry sites *)
+Example entries_example :
+  entries_not_overwritten [(44, 1, 7); (82, 0, 3)] [(44, 1, 7); (44, 2, 9); (82, 0, 3)] = true
+  /\ entries_not_overwritten [(44, 1, 7); (82, 0, 3)] [(44, 1, 7); (82, 0, 4)] = false
+  /\ overwritten_sites [(44, 1, 7); (82, 0, 3)] [(44, 1, 7); (82, 0, 4)] = [82].
+Proof. repeat split; vm_compute; reflexivity. Qed.
